@@ -98,6 +98,17 @@ CHECKS = {
         note="BaseException-only classes are not enumerated (the daemon lets them propagate by convention); shapes a constructor rejects or rewrites locally are skipped.",
         design_ref="DESIGN.md section 3 C07",
     ),
+    "C04": dict(
+        engine="S",
+        technique="exhaustive input enumeration of class-tagged payload trees over a tag alphabet x flags x member shapes x wrappers x codecs x decode paths; closed-world type oracle plus interpreter audit hook",
+        text="Class-tagged dicts whose tag ranges over every builtins name (bare and namespace-prefixed), every attribute of Pyro5.errors, Pyro internals, struct, every public "
+             "sqlite3 name, os/subprocess/importlib targets, a harness-local canary class, dunder and degenerate tags, combined with the four __exception__ flag values, "
+             "12 member variants (hostile attribute names, wrong shapes, nested tagged dicts, proxy/uri states) and 5 wrappers, are encoded with the raw codec of each "
+             "serializer and decoded through loads and loadsCall. Oracle: only plain data and the closed set of classes named by the property may appear, every other "
+             "tag and every tag containing '__' must raise, no import/exec/open/socket/subprocess/os audit event fires while decoding and the canary is never constructed.",
+        note="The allowed set is stated independently from the property text; payload trees are bounded (depth <= 4, one tagged node plus nested ones in members).",
+        design_ref="DESIGN.md section 3 C04",
+    ),
 }
 
 NOT_YET = {}
